@@ -1,14 +1,20 @@
 import KyupyVerif.Proofs.HeapInv
 import KyupyVerif.Proofs.MemRef
 import KyupyVerif.Model.MapCert
+import KyupyVerif.Proofs.MapSound
 /-! # C08 — signal-memory map and allocator never let live data overlap
 
 **Allocator** (all alloc/free histories — theorems): `Heap` is an address-ordered list model of `sim.Heap`
 (start of a chunk = sum of the sizes before it; tied to the code by exact correspondence of the whole state after
 every operation). **Map** (circuits × capacity vectors × options): `MapIn.check` is a certificate checker that is
-evaluated on the REAL `ops`, `level_starts`, `c_locs`, `c_caps`, `c_len` of every generated instance; the
-abstract refinement theorem `mem_refines` states what a certificate of this shape guarantees. The link
-"`MapIn.check p = none` ⇒ the hypotheses of `mem_refines`" is NOT yet proved (`map_partial`). -/
+evaluated on the REAL `ops`, `level_starts`, `c_locs`, `c_caps`, `c_len` of every generated instance, and it is
+SOUND (`map_certificate_sound`, `map_certificate_sound_logic`): whenever it accepts, running the real op rows on memory
+— operands read through `c_locs/c_caps` of the operand index, results written to the region of the output index, in
+program order or any other order that respects `level_starts` — leaves in every observed region (input slots, the zero
+slot, every output slot) exactly the value signal-level execution computes, which does not mention the map. What stays
+per instance: that the map `SimOps` builds passes the checker (no theorem for all circuits; the Lean model of the map
+construction is compared with the real tables on every generated instance and the checker runs on the real tables).
+`mem_refines` is the older abstract form of the same argument. -/
 namespace KV.C08
 open KV KV.Heap
 
@@ -63,6 +69,60 @@ theorem mem_refines {α C : Type} (L : MemRef.Layout α C) (c : MemRef.Cert L) :
     MemRef.I L c k m env →
     MemRef.I L c (k + levels.length) (levels.foldl (MemRef.runMem L) m) (levels.foldl MemRef.runSig env) :=
   MemRef.prog_I L c
+
+/-- **the certificate is sound** (any value domain, any op semantics, any storage discipline `R` whose reads depend on
+    and whose writes change only the signal's region): if `MapIn.check` accepts the tables, then after all op rows have run
+    on memory in program order, every observed signal — pinned: zero slot, input slots, captured signals — reads back as
+    the value signal-level execution computes, and every output slot reads the value of the signal it captures.
+    Hypotheses: each result fits its region (`hfit`; for waveforms: the model value is the stored, capacity-limited
+    one), memory and signal environment agree initially on signals no op writes (`h0`, the stimulus). -/
+theorem map_certificate_sound {α C : Type} (p : MapIn) (hc : p.check = none) (R : MapSound.RW α C)
+    (sem : OpRow → List α → α)
+    (hfit : ∀ o ∈ p.ops, ∀ args m,
+      R.rd (p.loc o.out) (p.cap o.out) (R.wr (p.loc o.out) (p.cap o.out) (sem o args) m) = sem o args)
+    (m0 : Int → C) (env0 : Nat → α)
+    (h0 : ∀ x ∈ p.tracked, (∀ o ∈ p.ops, o.out ≠ x) → MapSound.rdS p R x m0 = env0 x) :
+    (∀ x ∈ p.tracked, p.pinned x = true →
+      MapSound.rdS p R x (MapSound.memRun p R sem p.ops m0) = MapSound.sigRun p sem p.ops env0 x) ∧
+    (∀ j s, (j, s) ∈ p.ppoSrcs →
+      MapSound.rdS p R j (MapSound.memRun p R sem p.ops m0) = MapSound.sigRun p sem p.ops env0 s) :=
+  MapSound.check_sound p hc R sem hfit m0 env0 h0
+
+/-- the same for LogicSim's storage (one row per signal) in terms of the signal-level executor `Sig.exec` the theorems
+    of C01/C02 are about: the row of output slot `j` holds what `Sig.exec` computes for the captured signal `s` -/
+theorem map_certificate_sound_logic {α : Type} [Inhabited α] (p : MapIn) (hc : p.check = none) (hpos : 0 < p.capsMin)
+    (f : Nat → List α → α) (m0 : Int → α) (env0 : Nat → α)
+    (h0 : ∀ x ∈ p.tracked, (∀ o ∈ p.ops, o.out ≠ x) → m0 (p.loc x) = env0 x) :
+    ∀ j s, (j, s) ∈ p.ppoSrcs →
+      MapSound.memRun p (MapSound.rowRW α) (fun o => f o.lut) p.ops m0 (p.loc j)
+        = Sig.exec f (p.ops.map (MapSound.sigOp p)) env0 s :=
+  MapSound.check_sound_rows p hc hpos f m0 env0 h0
+
+/-- the driver evaluates `checkFast` (derived tables computed once); it is the same function -/
+theorem checker_fast_eq (p : MapIn) : p.checkFast = p.check := MapIn.checkFast_eq p
+
+/-- non-vacuity, on REAL tables: the two-input AND with an inverter of `C01.demoNet`, `SimOps(c_reuse=True)`:
+    location 5 is used by line 0, then by line 4, and by the output slot; with `strip_forks` lines 2/3 alias lines 0/1 -/
+def demoNet : Net :=
+  { nodes := #[⟨"input", [], [some 0]⟩, ⟨"__fork__", [some 0], [some 2]⟩, ⟨"input", [], [some 1]⟩, ⟨"__fork__", [some 1], [some 3]⟩,
+               ⟨"AND2", [some 2, some 3], [some 4]⟩, ⟨"INV1", [some 4], [some 5]⟩, ⟨"output", [some 5], []⟩],
+    lines := #[⟨0, 0, 1, 0⟩, ⟨2, 0, 3, 0⟩, ⟨1, 0, 4, 0⟩, ⟨3, 0, 4, 1⟩, ⟨4, 0, 5, 0⟩, ⟨5, 0, 6, 0⟩],
+    io := [0, 2, 6] }
+def demoMap : MapIn :=
+  { net := demoNet, strip := false,
+    ops := [⟨43690, 0, 9, 6, 6, 6⟩, ⟨43690, 1, 10, 6, 6, 6⟩, ⟨43690, 2, 0, 6, 6, 6⟩, ⟨43690, 3, 1, 6, 6, 6⟩,
+            ⟨34952, 4, 2, 3, 6, 6⟩, ⟨21845, 5, 4, 6, 6, 6⟩],
+    starts := [0, 2, 4, 5], locs := #[5, 6, 7, 8, 5, 6, 0, 1, 2, 3, 4, -1, -1, -1, 6],
+    caps := #[1, 1, 1, 1, 1, 1, 1, 1, 1, 1, 1, 0, 0, 0, 1], cLen := 9, capsMin := 1 }
+def demoMapStrip : MapIn :=
+  { net := demoNet, strip := true,
+    ops := [⟨43690, 0, 9, 6, 6, 6⟩, ⟨43690, 1, 10, 6, 6, 6⟩, ⟨34952, 4, 2, 3, 6, 6⟩, ⟨21845, 5, 4, 6, 6, 6⟩],
+    starts := [0, 2, 3], locs := #[5, 6, 5, 6, 7, 5, 0, 1, 2, 3, 4, -1, -1, -1, 5],
+    caps := #[1, 1, 1, 1, 1, 1, 1, 1, 1, 1, 1, 0, 0, 0, 1], cLen := 8, capsMin := 1 }
+example : demoMap.check = none ∧ demoMapStrip.check = none ∧ demoMap.ppoSrcs = [(14, 5)] := by decide +kernel
+/-- … and the checker is not trivially accepting: moving line 4 onto the still-live line 2 is rejected -/
+example : ({ demoMap with locs := #[5, 6, 7, 8, 7, 6, 0, 1, 2, 3, 4, -1, -1, -1, 6] } : MapIn).check
+    = some "live signals overlap" := by decide +kernel
 
 /-- non-vacuity: a heap with two free chunks between used ones satisfies the invariant -/
 example : HInv { cs := [⟨2, false⟩, ⟨3, true⟩, ⟨1, false⟩, ⟨4, true⟩, ⟨2, false⟩], maxSz := 12 } :=
